@@ -7,6 +7,5 @@ func main() {
 	Main(map[string]CmdFn{
 		"gen": func(a []string) int { return RunGen(gens, a) },
 		"c01": c01,
-		"dbg": dbg,
 	})
 }
